@@ -223,6 +223,7 @@ class Unit:
     # ---- types
     def resolve(self, t, impl=None):
         k = t[0]
+        if k == "resolved": return t[1]      # (round 9) parameter of a synthetic function (closure of a `with` external)
         if k == "named":
             n = t[1]
             if n == "Self":
@@ -749,9 +750,12 @@ class FnTranslator:
         """IR computing a Result-typed expression in tail position of a Result-returning function"""
         if e[0] == "call" and e[1][0] == "path" and e[1][1] == ["Ok"]:
             pre = []
-            term, ty = self.expr(e[2][0], env, pre, self.val_ty)
+            term, ty = self.expr(e[2][0], env, pre, self.val_ty if self.val_ty != ("unknown",) else None)
+            self.ret_seen = getattr(self, "ret_seen", []) + [ty]
             self.check_ty(ty, self.val_ty, "Ok value")
             return self.wrap(pre, P(self.pack(env, term)))
+        if e[0] == "try" and e[1][0] == "call" and e[1][1] == ("path", ["Err"]):
+            return self.result_comp(e[1], env)      # (round 9) `return Err(e)?;` = `return Err(e.into());`
         if e[0] == "call" and e[1][0] == "path" and e[1][1] == ["Err"]:
             pre = []
             tag = self.err_tag(e[2][0], env, pre)
@@ -767,6 +771,7 @@ class FnTranslator:
         if e[0] in ("call", "mcall"):
             pre = []
             r = self.call_any(e, env, pre, want_result=True)
+            if r is not None and r[2] in ("comp", "tried"): self.ret_seen = getattr(self, "ret_seen", []) + [r[1]]
             if r is not None and r[2] == "comp":
                 if self.selfk == "mut" or self.mut_params:
                     v = self.fresh("r")
@@ -1110,7 +1115,9 @@ class FnTranslator:
         spec = self.u.externals["let:" + name]
         x = e
         while x[0] in ("paren", "ref", "deref"): x = x[1]
-        if not (x[0] == "call" and x[1][0] == "path" and x[1][1][-1] == spec["callee"]):
+        if spec["callee"] == "*":
+            x = ("any", None, x)       # (round 9) any initialiser: an uninterpreted function of exactly the declared variables
+        elif not (x[0] == "call" and x[1][0] == "path" and x[1][1][-1] == spec["callee"]):
             raise RsError("initialiser of `%s` (line %d) is not a call of %s" % (name, line, spec["callee"]))
         fv = []
         def walk(a):
@@ -2569,6 +2576,10 @@ class FnTranslator:
                 term, t = self.expr(x, env, pre, ("int", "usize"))
             if want is not None and want[0] in ("vec", "map", "umap", "set", "uset"): return "[]", want, "val"
             raise RsError("%s::%s() without a known collection type (annotate the let)" % (segs[0], name))
+        if segs in (["Box", "new"], ["Arc", "new"], ["Rc", "new"]) and len(args) == 1:
+            # (round 9) `Box<T>` / `Arc<T>` are `T` (see rsparse / resolve): their constructor is the identity
+            term, t = self.expr(args[0], env, pre, want)
+            return term, t, "val"
         if segs == ["drop"] and len(args) == 1:
             self.expr(args[0], env, [], None)
             return "()", UNIT, "val"
@@ -2689,6 +2700,91 @@ class FnTranslator:
         if not terms: return ident, rt, "val"
         return "(%s %s)" % (ident, " ".join(terms)), rt, "val"
 
+    def closure_external(self, name, recv, args, env, pre, wr):
+        """(round 9) `recv.m(a…, |x| BODY)` for a method declared `"Type.m": {"closure": "X", "params": [..]}` (the shape of
+        `Node::with_channel(&id, |chan| …)`: run the closure on a `&mut X` the receiver looks up, return the closure's
+        `Result`).  BODY becomes a definition of its own, `<function>.<m>_<n>`, with the variables it reads as parameters
+        and `x : X` as its last, `&mut`, parameter (so it returns `Rs.M (X × T)`); the method is the higher-order external
+        `ext_Type_m : {T : Type} → Type → args → (X → Rs.M (X × T)) → Rs.M T`.  A tying theorem instantiates it or speaks
+        about the closure's definition directly.  The value must be consumed by `?` or be in tail position."""
+        spec = self.u.externals[name]
+        if not (wr and self.is_result): raise RsError("Result of %s(.., closure) used other than by `?` or in tail position" % name)
+        c = args[-1]
+        if c[0] != "closure" or len(c[1]) != 1 or c[1][0][0] != "pvar": raise RsError("%s: expected a one-parameter closure" % name)
+        pts = [self.u.parse_type(x, self.impl) for x in spec["params"]]
+        if len(pts) != len(args) - 1: raise RsError("external %s arity" % name)
+        rterm, rty = self.expr(recv, env, pre, None)
+        terms = [self.paren(rterm)]
+        for a, pt in zip(args[:-1], pts):
+            term, t = self.expr(a, env, pre, pt)
+            self.check_ty(t, pt, "argument of external %s" % name)
+            terms.append(self.paren(term))
+        xname = c[1][0][1]
+        xty = self.u.parse_type(spec["closure"], self.impl)
+        body = c[2] if c[2][0] == "block" else ("block", [], c[2])
+        # captured variables: every variable of the environment the body mentions (in order of appearance)
+        caps = []
+        def walk(a):
+            if isinstance(a, tuple):
+                if len(a) == 2 and a[0] == "path" and isinstance(a[1], list) and len(a[1]) == 1 and a[1][0] in env \
+                        and a[1][0] not in caps and a[1][0] not in ("self", xname):
+                    caps.append(a[1][0])
+                for y in a: walk(y)
+            elif isinstance(a, list):
+                for y in a: walk(y)
+        walk(body)
+        if any(env[v][0] in ("alias", "lockres") for v in caps): raise RsError("closure of %s captures an alias" % name)
+        uses_self = "self" in env and ("path", ["self"]) in [x for x in self._paths(body)]
+        self.closure_n = getattr(self, "closure_n", 0) + 1
+        fname = "%s__%s_%d" % (self.f["name"], name.split(".")[-1], self.closure_n)
+        def synth(ret):
+            return {"name": fname, "impl": self.impl, "self": "ref" if uses_self else None, "ret": ret, "body": body,
+                    "params": [(("pvar", v), ("resolved", env[v]), False, False) for v in caps] + [(("pvar", xname), ("resolved", xty), False, True)],
+                    "vis": "", "line": self.f["line"], "end_line": self.f["end_line"],
+                    "text": "closure |%s| of %s(..) in %s" % (xname, name, self.f["text"][:60])}
+        key = (self.impl, fname)
+        if key not in self.u.fns:
+            # first pass: the closure has no declared return type -- the types seen in its tail positions decide
+            saved = (dict((k_, list(v)) for k_, v in self.u.used_fields.items()), list(self.u.used_enums), list(self.u.used_denums))
+            t1 = FnTranslator(self.u, synth(("resolved", ("result", ("unknown",), ("opaque", "Status")))))
+            t1.run()
+            def known(t):
+                return t != ("unknown",) and t != INTLIT and all(known(x) for x in t[1:] if isinstance(x, tuple)) \
+                    and all(known(y) for x in t[1:] if isinstance(x, list) for y in x)
+            good = [t for t in getattr(t1, "ret_seen", []) if known(t)]
+            if not good: raise RsError("closure of %s: its result type cannot be determined" % name)
+            self.u.used_fields, self.u.used_enums, self.u.used_denums = saved
+            info = FnTranslator(self.u, synth(("resolved", ("result", good[0], ("opaque", "Status"))))).run()
+            self.u.fns[key] = info
+            self.u.order.append(key)
+        info = self.u.fns[key]
+        for x in info.exts: self.add_ext(*x, ops=getattr(info, "ext_opaques", ()))
+        for o in info.needs_deq:
+            if o not in self.needs_deq: self.needs_deq.append(o)
+        self.callees.append(info.lean_name)
+        T = info.val_ty
+        ident = "ext_" + re.sub(r"\W+", "_", name)
+        ops = []
+        for t in [rty] + pts + [xty]: self.u.opaques_of(t, ops)
+        lt = self.u.lt
+        lty = "{T : Type} → " + " → ".join([lt(t, False) for t in [rty] + pts] +
+                                             ["(%s → Rs.M (%s × T))" % (lt(xty, False), lt(xty, False)), "Rs.M T"])
+        self.add_ext(ident, lty, ops)
+        fterm = " ".join([info.lean_name] + [n for n, _ in info.exts] + (["self"] if uses_self else []) + [lid(v) for v in caps])
+        if T == UNIT:
+            # the closure definition returns the new X alone: adapt to the external's `X × T`
+            fterm = "fun x_ => do let s_ ← %s x_; pure (s_, ())" % fterm
+        return "%s %s (%s)" % (ident, " ".join(terms), fterm), T, "comp"
+
+    def _paths(self, a):
+        if isinstance(a, tuple):
+            if len(a) == 2 and a[0] == "path": yield a
+            for y in a:
+                for z in self._paths(y): yield z
+        elif isinstance(a, list):
+            for y in a:
+                for z in self._paths(y): yield z
+
     def declared_mutex(self, recv, env):
         """is the place `recv` (a field of a structure of the unit, or a parameter) *declared* with a `Mutex<..>` type
         (under `Arc`/`Rc`/`Box`/references)?  Only then `.lock()` on a value of opaque type is known to be the mutex's."""
@@ -2791,6 +2887,15 @@ class FnTranslator:
         if recv[0] == "path" and len(recv[1]) == 1 and recv[1][0] not in env and recv[1][0] != "self" \
                 and self.u.const_value(recv[1][0], self.local_consts) is None:
             raise RsError("method call on unknown %s" % recv[1][0])
+        if args and args[-1][0] == "closure" and any(k.endswith("." + m) and v.get("closure") for k, v in self.u.externals.items()):
+            pre0, n0 = [], self.n
+            try:
+                _, ct0 = self.expr(recv, env, pre0, None)
+            except RsError:
+                ct0 = ("unknown",)
+            self.n = n0
+            if ct0[0] in ("struct", "opaque") and self.u.externals.get("%s.%s" % (ct0[1], m), {}).get("closure"):
+                return self.closure_external("%s.%s" % (ct0[1], m), recv, args, env, pre, wr)
         if any(k.endswith("." + m) and v.get("updates") for k, v in self.u.externals.items()):
             # (round 9) a declared *state-updating* external method `Type.m` (`"updates": true`): the receiver is a place
             pre0, n0 = [], self.n
